@@ -355,6 +355,96 @@ def install(it):
         from . import folds
         return folds.seq_len(args[0])
 
+    # ---- lists with known elements and dictionaries written by a loop body ---------------
+    @reg('list_mark')
+    def list_mark(it, args, kw):
+        """number of parts of a list (known elements and symbolic segments): a position to
+        compare against after the loop body"""
+        from .values import HList
+        v = args[0]
+        if isinstance(v, ListVal):
+            return len(v.items)
+        if isinstance(v, HList):
+            return len(v.parts)
+        raise Unsupported('list_mark of %r' % (v,))
+
+    @reg('list_since')
+    def list_since(it, args, kw):
+        """the elements appended after position `mark` (a tuple of objects)"""
+        from .values import HList, Segment
+        v, m = args
+        parts = v.items if isinstance(v, ListVal) else v.parts
+        new = parts[m:]
+        if any(isinstance(x, Segment) for x in new):
+            # something was inserted in front of the part of the list that was there before: the
+            # list did not simply grow at its end
+            return None
+        return tuple(new)
+
+    @reg('havoc_dict_attr')
+    def havoc_dict_attr(it, args, kw):
+        """loop havoc of a dictionary held in obj.attr: arbitrary contents at the loop head (an
+        uninterpreted background), no recorded writes"""
+        from .values import DictVal
+        o, attr = args
+        d = o.fields.get(attr)
+        if not isinstance(d, DictVal):
+            raise Unsupported('havoc_dict_attr: %s is not a dictionary' % attr)
+        it.p.counter += 1
+        has = z3.Function('has_%s!%d' % (attr, it.p.counter), smt.Int, smt.Bool)
+        d.entries = []
+        d.cindex = None
+
+        def base(it2, key, has=has, attr=attr):
+            from .values import int_term, is_intlike, Opaque
+            if isinstance(key, str) or smt.is_str_term(key):
+                hs = z3.Function(has.name() + '_s', smt.Str, smt.Bool)
+                k = it2.p.facts.strlit(key) if isinstance(key, str) else key
+                if it2.p.branch(hs(k)):
+                    return True, Opaque('%s[...] from an earlier iteration' % attr)
+                return False, None
+            if not is_intlike(key):
+                raise Unsupported('lookup of %r in a havoc\'d dictionary' % (key,))
+            if it2.p.branch(has(int_term(key))):
+                return True, Opaque('%s[...] from an earlier iteration' % attr)
+            return False, None
+        d.base = base
+
+    @reg('dict_mark')
+    def dict_mark(it, args, kw):
+        return len(args[0].entries)
+
+    @reg('dict_writes_since')
+    def dict_writes_since(it, args, kw):
+        """(key, value) pairs stored into the dictionary after position `mark`"""
+        d, m = args
+        out = []
+        for kind, k, v in d.entries[m:]:
+            if kind != 'key':
+                raise Unsupported('range binding among the writes of a loop body')
+            out.append((k, v))
+        return tuple(out)
+
+    @reg('cfg_served')
+    def cfg_served(it, args, kw):
+        """configuration predicate: the application entity serves this abstract syntax as SCP"""
+        return it.hooks['cfg']['served'](it.p.facts.strlit(args[0]) if isinstance(args[0], str) else args[0])
+
+    @reg('cfg_proposed')
+    def cfg_proposed(it, args, kw):
+        """the requester's presentation-context table has an entry for this id"""
+        return it.hooks['cfg']['proposed'](int_term(args[0]))
+
+    @reg('cfg_proposed_sop')
+    def cfg_proposed_sop(it, args, kw):
+        """abstract syntax the requester's table holds under this id"""
+        return it.hooks['cfg']['proposed_sop'](int_term(args[0]))
+
+    @reg('cfg_supported_ts')
+    def cfg_supported_ts(it, args, kw):
+        """configuration predicate: this transfer syntax is in AE.supported_ts"""
+        return it.hooks['cfg']['supported_ts'](it.p.facts.strlit(args[0]) if isinstance(args[0], str) else args[0])
+
     @reg('same')
     def same(it, args, kw):
         """equality that also covers None on either side"""
